@@ -347,6 +347,7 @@ fn rust_join_hook(left: blake3::verif::JoinHalf<'_>, right: blake3::verif::JoinH
 pub fn install_hooks() {
     blake3::verif::set_yield_hook(Some(sched::hook_yield));
     blake3::verif::set_join_hook(Some(rust_join_hook));
+    crate::cnode::install_c_hooks();
     install_panic_hook();
 }
 
@@ -361,6 +362,8 @@ pub struct TaskLocal {
 pub fn exec(plan: &Plan) -> ExecOut {
     let data: Vec<Vec<u8>> = plan.data.iter().map(|d| d.materialize(plan.cfg.secret_xor)).collect();
     let n = plan.tasks.len();
+    // every run starts from the same C dispatcher state
+    crate::cnode::set_mask(crate::cnode::detected_mask());
     let sched = Sched::new(&plan.schedule, n);
     let shared = Arc::new(Shared {
         plan: plan.clone(),
